@@ -3,6 +3,9 @@ import Dmn.Model.Lexer
 /-!
 # `flatten_name_parts` agrees with `Name::new` on regular part lists
 
+(Since b9aabe3 `consume_name` no longer calls `flatten_name_parts`; the function and its unit
+tests remain in `lexer.rs`, and so does this lemma about it.)
+
 A part list is *regular* when it is a word followed by words, each optionally preceded by one
 additional symbol: no leading symbol, no trailing symbol, no two adjacent symbols; a word is a
 non-empty list of characters that are neither white space (for `str::trim`) nor additional
@@ -37,7 +40,7 @@ def shapeOf : List (List Nat) → Option (List Seg)
       | [s] => if isAdditionalNameSymbol s && wordOk q then (shapeOf ps).map ((some s, q) :: ·) else none
       | _ => none
 
-/-- The decidable hypothesis of `normalise_agree_partial`. -/
+/-- The decidable hypothesis of `flatten_agrees_on_regular`. -/
 def regularParts : List (List Nat) → Bool
   | [] => false
   | w0 :: ps => wordOk w0 && (shapeOf ps).isSome
